@@ -161,6 +161,36 @@ pub fn c18() -> i32 {
             }
         }
     }
+    // every remote peer is lost (dies, or is disconnected explicitly) and the survivor goes on
+    for (tp, deaths) in [("1+1", vec![1usize]), ("1+1+1", vec![1, 2]), ("2+1", vec![1])] {
+        for w in [0usize, 1, 8] {
+            for d in [0usize, 3] {
+                for explicit in [false, true] {
+                    if !t && (tp == "1+1+1" && w == 1 || explicit && d == 3) {
+                        continue;
+                    }
+                    let mut s = base_scn("c18-peers-lost", tp, w, d, false, Pred::RepeatLast, Program::Changing, 1);
+                    for p in s.peers.iter_mut() {
+                        p.notify_ms = 100;
+                        p.timeout_ms = 300;
+                        p.desync = 3;
+                    }
+                    for (i, dn) in deaths.iter().enumerate() {
+                        if explicit {
+                            let h = s.peers[*dn].locals[0];
+                            s.script.push(ScriptItem { round: 60 + 0 * i as i32, node: 0, action: Action::Disconnect { handle: h } });
+                        }
+                        s.script.push(ScriptItem { round: 60 + 0 * i as i32, node: *dn, action: Action::Die });
+                    }
+                    s.name = format!("{} all remote peers lost explicit={explicit}", s.name);
+                    s.horizon = rounds;
+                    s.probe = 0;
+                    s.checks = CK_C02 | CK_C04;
+                    scns.push(s);
+                }
+            }
+        }
+    }
     let n = scns.len();
     let cfg = ExploreCfg { k: Some(0), track_sizes: true, wall: Duration::from_secs(if t { 3000 } else { 50 }), ..Default::default() };
     let out = explore(&scns, &cfg, &judge);
